@@ -119,6 +119,10 @@ fn check_record(c: &RecCase, ctx: &mut Ctx) {
         RecSpec::Register { ops, writers, .. } => json!({"register_ops": ops.len(), "writers": writers}),
     }}));
 
+    if let Some(k) = c.after_failed_encode {
+        let failed = crate::c12_values::encode_that_fails(k);
+        ctx.label(if failed { "encoded_right_after_a_failed_encode" } else { "poison_encode_unexpectedly_succeeded" });
+    }
     let enc = match v.encode() {
         Ok(e) => e,
         Err(e) => {
@@ -126,7 +130,7 @@ fn check_record(c: &RecCase, ctx: &mut Ctx) {
             return;
         }
     };
-    ctx.canon = Some(format!("{:x}", vh_core::stable_hash(&enc)));
+    ctx.canon = Some(format!("{:x}/{:?}", vh_core::stable_hash(&enc), c.after_failed_encode.map(|k| k % 4)));
     // the tag is a fixed-size prefix: the remainder is the plain encoding of the value
     match v.payload_msgpack() {
         Ok(p) => {
